@@ -133,10 +133,12 @@ def args_listed(run, model, rule="C06.args-listed"):
     target = None
     for h, it in _loops(flow):
         its = strip_sites(it)
-        if its[0] == "call" and its[1] == ("builtin", "sorted") and its[2] and its[2][0][0] == "call" and its[2][0][1][0] == "attr" and its[2][0][1][2] == "keys":
-            base = its[2][0][1][1]
-            bs = show(base)
-            if "kwargs" in bs:
+        if its[0] == "call" and its[1] == ("builtin", "sorted") and its[2]:
+            # sorted(mapping.keys()) or sorted(mapping), the mapping derived from the call's arguments
+            base = its[2][0]
+            if base[0] == "call" and base[1][0] == "attr" and base[1][2] == "keys" and not base[2]:
+                base = base[1][1]
+            if any(sub == ("param", "resolved_kwargs") for sub in subterms(base)):
                 target = (h, it, base)
     if target is None:
         run.violation(rule, fi.qual, "no loop adds the call's arguments (sorted keys of the selected mapping) to the shown values", fi.loc())
